@@ -338,6 +338,7 @@ func mergeRoots(
 
 	mergedRoots := make(map[string][]byte, len(roots))
 	var tree *crdt.Tree
+	created := when
 	for _, key := range roots {
 		root, rootBytes, err := loadRootFromAny(ctx, persists, key)
 		if err != nil {
@@ -417,6 +418,9 @@ func mergeRoots(
 			tree = newTree
 		}
 		mergedRoots[key] = rootBytes
+		if root.Created != nil && root.Created.After(created) {
+			created = *root.Created
+		}
 	}
 
 	unmergedRoots := len(roots) - len(mergedRoots)
@@ -432,7 +436,11 @@ func mergeRoots(
 		if len(mergedRoots) == 1 {
 			tree.Source = getFirstKey(mergedRoots)
 		}
-		tree.Created = &when
+		// A version is never older than the versions it builds on, even
+		// when they were committed while this open was in flight or by a
+		// writer whose clock is ahead: vacuum compares a version's cutoff
+		// with the creation times of its successors.
+		tree.Created = &created
 	}
 
 	return tree, mergedRoots, unmergedRoots, nil
